@@ -20,7 +20,8 @@ CONSTANTS Chunks,      \* set of byte sequences that may be written
           MaxCap,      \* bound on capacities explored
           MaxCalls     \* bound on number of write_str calls
 VARIABLES s,           \* the DiplomatWrite as seen by both sides
-          accepted,    \* ghost: concatenation of chunks written before the first failed growth
+          accepted,    \* ghost: the text the buffer held at creation (std::string writer) followed by the chunks written
+                       \*        before the first failed growth
           touchedMax,  \* ghost: highest (1-based) buffer index ever stored to
           calls        \* number of write_str calls started
 vars == <<s, accepted, touchedMax, calls>>
@@ -32,6 +33,9 @@ Fresh(n) == [i \in 1..n |-> "?"]          \* "?" = never written by Rust
 New(k, c) == [kind |-> k, cap |-> c, size |-> IF k = "fixed" THEN c + 1 ELSE c,
               buf |-> Fresh(IF k = "fixed" THEN c + 1 ELSE c),
               len |-> 0, failed |-> FALSE, pc |-> "idle", pending |-> <<>>]
+\* the C++ writer wraps a std::string: capacity AND length are the string's current length, the text in it stays (writes append)
+PreText(c) == [i \in 1..c |-> 112]
+NewStr(c) == [New("cpp_string", c) EXCEPT !.buf = PreText(c), !.len = c]
 Needed(w) == w.len + Len(w.pending)
 FBegin(w, c) == [w EXCEPT !.pending = c,
                           !.pc = IF w.failed THEN "idle"
@@ -53,8 +57,9 @@ CanFail(w) == w.kind \in {"caller", "fixed"}              \* Vec / std::string a
 
 \* ---- actions ---------------------------------------------------------------------------
 \* capacity 0 is the common start: an empty std::string, and diplomat_buffer_write_create(0) from the JS/Dart/Kotlin runtimes
-Init == /\ \E k \in Kinds, c \in 0..MaxCap : s = New(k, c)
-        /\ accepted = <<>> /\ touchedMax = 0 /\ calls = 0
+Init == /\ \E k \in Kinds, c \in 0..MaxCap : IF k = "cpp_string" THEN s = NewStr(c) /\ accepted = PreText(c)
+                                                ELSE s = New(k, c) /\ accepted = <<>>
+        /\ touchedMax = 0 /\ calls = 0
 
 WriteBegin(c) ==
   /\ s.pc = "idle" /\ calls < MaxCalls
